@@ -572,14 +572,16 @@ func (sp *ServerPool) doHandle(stdctx stdcontext.Context, spCtx *serverPoolConte
 }
 
 func (sp *ServerPool) buildResponse(spCtx *serverPoolContext) (err error) {
-	body := readers.NewCallbackReader(spCtx.stdResp.Body)
-	spCtx.stdResp.Body = body
-
 	if sp.proxy.compression != nil {
 		if sp.proxy.compression.compress(spCtx.stdReq, spCtx.stdResp) {
 			spCtx.AddTag("gzip")
 		}
 	}
+
+	// NOTE: the callback reader must be the outermost reader, collectMetrics
+	// relies on it when the body is a stream.
+	body := readers.NewCallbackReader(spCtx.stdResp.Body)
+	spCtx.stdResp.Body = body
 
 	resp, err := httpprot.NewResponse(spCtx.stdResp)
 	if err != nil {
